@@ -794,6 +794,16 @@ theorem J0_stopNext (g0 : G1) (s : Sess) (h : J0 g0 s) : J0 g0 (stopNext s).1 :=
   all_goals (try dsimp only)
   all_goals first | exact h | exact J0_of_pres (by pres_peel) h
 
+theorem peel_setLastChecked {g0 : G1} {s x : Sess} (n : Int) (hp : Pres g0 s x) : Pres g0 s (x.setLastChecked n) :=
+  hp.trans ((Ext.of_eq (s := x) rfl rfl).pres g0)
+macro_rules | `(tactic| pres_step) => `(tactic| apply peel_setLastChecked)
+
+theorem pres_checkResetTime (g0 : G1) (s : Sess) (now : Int) : Pres g0 s (checkResetTime s now) := by
+  unfold checkResetTime
+  repeat' split
+  all_goals (try dsimp only)
+  all_goals pres_peel
+
 theorem J0_stepCore (g0 : G1) (s : Sess) (e : Ev) (h : J0 g0 s) : J0 g0 (stepCore s e).1 := by
   obtain ⟨hS, hD, hI, hC⟩ := J0_mutual g0 (fuelOf s)
   unfold stepCore
@@ -837,6 +847,7 @@ theorem J0_stepCore (g0 : G1) (s : Sess) (e : Ev) (h : J0 g0 s) : J0 g0 (stepCor
     have h1 := hC s true true h
     split <;> exact J0_of_pres (by pres_peel) h1
   | sessionTime r sm => exact hC s r sm h
+  | resetTime now => exact J0_of_pres (pres_checkResetTime g0 s now) h
 
 
 end Qfx.Sess
